@@ -24,6 +24,9 @@ def pick_attrs(rng, full=False, with_unknown=False):
         a.insert(rng.randint(0, len(a)), rng.choice(UNKNOWN))
     if not full:
         rng.shuffle(a)
+    if rng.random() < 0.15:
+        # a name asked for twice is two columns (list forms, files) and one key (dict forms)
+        a.insert(rng.randint(0, len(a)), rng.choice(a))
     return a
 
 
